@@ -983,11 +983,19 @@ pub mod fasta {
     spec fn head_s(&self) -> Seq<u8>;
     /// the sequence without any line terminators
     spec fn seq_s(&self) -> Seq<u8>;
+    /// what `seq()` returns: for borrowed records the raw extent between the first and the last line end
+    spec fn rawseq_s(&self) -> Seq<u8>;
 //@sig fasta::Record::head ret=r tags=C13
 //@spec
         requires self.rwf(),
         ensures
             [C13,C12,C01|fasta.Record.head] r@ == self.head_s(),
+//@end
+//@sig fasta::Record::seq ret=r tags=C13
+//@spec
+        requires self.rwf(),
+        ensures
+            [C13|fasta.Record.seq] r@ == self.rawseq_s(),
 //@end
 }
 
@@ -1046,6 +1054,63 @@ pub mod fasta {
                 assert(ls.subrange(0, k0 + 1) =~= ls.subrange(0, k0).push(ls[k0]));
                 lemma_concat_push(ls.subrange(0, k0), ls[k0]);
             }
+//@end
+
+//@fn fasta::RefRecord::full_seq ret=r tags=C13
+//@spec
+        requires
+            self.rwf(),
+        ensures
+            [C13|fasta.full_seq.borrowed_iff_single_line] cow_borrowed(r) == (self.lines_v().len() == 1),
+            [C13|fasta.full_seq.is_concatenation_of_lines] cow_bytes(r) == concat(self.lines_v()),
+//@body_start
+        proof {
+            self.buf_pos.lemma_offsets(self.buffer@);
+            if self.lines_v().len() == 1 {
+                assert(self.lines_v() =~= seq![self.lines_v()[0]]);
+                assert(concat(self.lines_v()) =~= self.lines_v()[0]) by {
+                    assert(self.lines_v().drop_last() =~= Seq::<Seq<u8>>::empty());
+                    assert(concat(Seq::<Seq<u8>>::empty()) =~= Seq::<u8>::empty());
+                }
+            }
+        }
+//@end
+
+//@fn fasta::RefRecord::to_owned_record ret=r tags=C13,C04
+//@spec
+        requires
+            self.rwf(),
+        ensures
+            [C13,C04|fasta.to_owned_record] r.head@ == self.head_v() && r.seq@ == concat(self.lines_v()),
+//@end
+}
+
+//@impl_open fasta::Record for RefRecord::head
+    spec fn rwf(&self) -> bool { self.buf_pos.rwf(self.buffer@) }
+    spec fn head_s(&self) -> Seq<u8> { self.head_v() }
+    spec fn seq_s(&self) -> Seq<u8> { concat(self.lines_v()) }
+    spec fn rawseq_s(&self) -> Seq<u8> {
+        if self.buf_pos.l().len() > 1 { trim(self.buffer@.subrange(self.buf_pos.l()[0] + 1, self.buf_pos.l().last())) } else { Seq::<u8>::empty() }
+    }
+//@fn fasta::Record for RefRecord::head ret=r tags=C13,C12,C01,C06
+//@body_start
+        proof { self.buf_pos.lemma_offsets(self.buffer@); }
+//@end
+//@fn fasta::Record for RefRecord::seq ret=r tags=C13,C06
+//@body_start
+        proof { self.buf_pos.lemma_offsets(self.buffer@); }
+//@end
+}
+
+//@item fasta::OwnedRecord vis=keep
+//@impl_open fasta::Record for OwnedRecord::head
+    spec fn rwf(&self) -> bool { true }
+    spec fn head_s(&self) -> Seq<u8> { self.head@ }
+    spec fn seq_s(&self) -> Seq<u8> { self.seq@ }
+    spec fn rawseq_s(&self) -> Seq<u8> { self.seq@ }
+//@fn fasta::Record for OwnedRecord::head ret=r tags=C13
+//@end
+//@fn fasta::Record for OwnedRecord::seq ret=r tags=C13
 //@end
 }
 
